@@ -13,6 +13,12 @@
  *                                                its current claim/send (resp. receive/release) iteration; tokens naming a
  *                                                finished thread are skipped; afterwards the unfinished threads are run to
  *                                                completion in thread order
+ *   nest <depth> <msglen> <held> <levels> <where>   deep synchronous nesting on ONE OS thread (interrupt style, any number of
+ *                                                logical contexts — the baton has only 8 threads): contexts 0..held-1 claim a
+ *                                                buffer and keep it; then <levels> further contexts each run claim [write send];
+ *                                                immediately before the (<where>+1)-th atomic operation of a context's claim the
+ *                                                next context runs its whole iteration nested inside (re-entry from the shim
+ *                                                hook); contexts that were never reached run afterwards
  *   --                                           -> --
  * output: one line per operation  `T<tid> <op> <field> <order> <before> <after>`, `T<tid> write|read slot<i> plain <v>`,
  *   `T<tid> ret <call> <result>`, then `end ...` (shared state), `final ...` (main thread drains and counts free buffers).
@@ -26,6 +32,7 @@
 #include <librfn/messageq.h>
 
 #define MAXT 8
+#define MAXCTX 1024
 #define MAXTICK 4096
 #define STEP_LIMIT 20000
 
@@ -44,7 +51,7 @@ enum { FREE = 0, CLAIMED, SENT, HELD };
 static int own_state[64], own_tid[64], own_ticket[64];
 static int tick_slot[MAXTICK], tick_stamp[MAXTICK], tick_state[MAXTICK];
 static int nclaimed, nreceived, outstanding;
-static int in_claim[MAXT], saw_full[MAXT], nin_claim;
+static int in_claim[MAXCTX], saw_full[MAXCTX], nin_claim;
 static int violations;
 #define V(...) do { violations++; printf("MONITOR: " __VA_ARGS__); printf("\n"); } while (0)
 
@@ -198,11 +205,25 @@ static const char *ordname(int o)
 	return "?";
 }
 
+/* deep synchronous nesting (one OS thread): see `nest` in the header comment */
+static int nest_mode, nest_where, nest_next, nest_end;
+static int ctx_ops[MAXCTX], ctx_in_claim[MAXCTX];
+static void nest_context(int id);
+
 void verif_pre(const char *op, const volatile void *addr, int order, const char *file, int line)
 {
 	(void)op; (void)addr; (void)order; (void)file; (void)line;
 	if (me < 0)
 		return;
+	if (nest_mode) {
+		if (ctx_in_claim[me] && ctx_ops[me] == nest_where && nest_next < nest_end) {
+			int saved = me;
+			nest_context(nest_next++);     /* an "interrupt" between two atomic operations of this claim */
+			me = saved;
+		}
+		mon_tick();
+		return;
+	}
 	yield_point();
 }
 
@@ -211,6 +232,8 @@ void verif_post(const char *op, const volatile void *addr, int order, unsigned l
 	if (me < 0)
 		return;
 	printf("T%d %s %s %s %llu %llu\n", me, op, field(addr), ordname(order), before, after);
+	if (nest_mode && ctx_in_claim[me])
+		ctx_ops[me]++;
 }
 
 /* ------------------------------------------------------------------ the logical threads */
@@ -313,6 +336,8 @@ static void run_iteration(int t)
 	} while (!done[t] && !boundary[t]);
 }
 
+static void finish_scenario(void);
+
 static void scenario(char *toks)
 {
 	pthread_t th[MAXT];
@@ -346,6 +371,16 @@ static void scenario(char *toks)
 			run_iteration(i);
 	for (int i = 0; i < nthreads; i++)
 		pthread_join(th[i], NULL);
+	finish_scenario();
+	for (int i = 0; i < nthreads; i++)
+		sem_destroy(&sem[i]);
+	sem_destroy(&sched_sem);
+}
+
+/* all logical threads / contexts have completed: state line, quiescence checks by the main thread */
+static void finish_scenario(void)
+{
+	me = -1;
 	printf("end num_free=%u sendp=%u flags=%u receivep=%u\n", (unsigned)atomic_load(&q.num_free),
 	       (unsigned)atomic_load(&q.sendp), (unsigned)atomic_load(&q.full_flags), (unsigned)q.receivep);
 	/* quiescent (no call in progress): the counter in the real structure must be capacity minus messages still held */
@@ -388,9 +423,52 @@ static void scenario(char *toks)
 	printf("final drained=%d extra_claims=%d\n", drained, extra);
 	free(store);
 	store = NULL;
-	for (int i = 0; i < nthreads; i++)
-		sem_destroy(&sem[i]);
-	sem_destroy(&sched_sem);
+}
+
+static void nest_context(int id)
+{
+	int hold = id < nsend;                 /* here nsend = number of contexts that only claim and keep their buffer */
+	me = id;
+	ctx_ops[id] = 0;
+	ctx_in_claim[id] = !hold;              /* the holders fill the queue one after the other, nothing nests inside them */
+	mon_claim_begin(id);
+	unsigned char *p = messageq_claim(&q);
+	ctx_in_claim[id] = 0;
+	int slot = mon_claim_end(id, p);
+	if (!p) {
+		printf("T%d ret claim NULL\n", id);
+		return;
+	}
+	if (slot < 0) {
+		printf("T%d ret claim off%ld\n", id, (long)(p - store));
+		return;
+	}
+	printf("T%d ret claim %d\n", id, slot);
+	if (hold)
+		return;
+	int stamp = (id + 1) * 1000;
+	mon_tick();
+	memcpy(p, &stamp, sizeof stamp);
+	printf("T%d write slot%d plain %d\n", id, slot, stamp);
+	mon_written(id, slot, stamp);
+	messageq_send(&q, p);
+	mon_send_end(id, slot);
+	printf("T%d ret send\n", id);
+}
+
+static void nest_scenario(int held, int levels, int where)
+{
+	store = malloc((size_t)depth * msglen);
+	memset(store, 0xEE, (size_t)depth * msglen);
+	messageq_init(&q, store, (size_t)depth * msglen, msglen);
+	mon_reset();
+	nsend = held;
+	nthreads = held + levels;
+	nest_mode = 1; nest_where = where; nest_next = 0; nest_end = held + levels;
+	while (nest_next < nest_end)
+		nest_context(nest_next++);
+	nest_mode = 0;
+	finish_scenario();
 }
 
 int main(void)
@@ -424,6 +502,16 @@ int main(void)
 				nthreads = nsend + 1;
 				have_cfg = 1;
 				puts("ok");
+			}
+		} else if (!strncmp(line, "nest ", 5)) {
+			int held = 0, levels = 0, where = 1;
+			if (sscanf(line + 5, "%d %d %d %d %d", &depth, &msglen, &held, &levels, &where) != 5 || depth < 1 || depth > 32 ||
+			    msglen < (int)sizeof(int) || msglen > 4096 || held < 0 || held > depth || levels < 1 || held + levels > MAXCTX || where < 1) {
+				puts("bad-nest");
+			} else {
+				puts("ok");
+				have_cfg = 0;
+				nest_scenario(held, levels, where);
 			}
 		} else if (!strncmp(line, "run", 3)) {
 			if (!have_cfg)
